@@ -720,7 +720,10 @@ impl Monitor for C19 {
         for (side, i) in &rec.inds {
             let s = if *side == Side::S { was.0 } else { was.1 };
             if let Indication::Fault(f) | Indication::Abandon(f) = i {
-                if s {
+                // the property speaks of timer faults; a fault raised by a PDU that reaches a
+                // suspended entity (an EOF whose checksum does not match, say) is not one
+                let timer_fault = matches!(f.condition, Condition::PositiveLimitReached | Condition::NakLimitReached | Condition::InactivityDetected | Condition::KeepAliveLimitReached);
+                if s && timer_fault {
                     ctx.flag("fault-while-suspended", format!("{:?}|{:?}", side, f.condition), format!("{:?} is suspended but declared {:?}", side, f.condition));
                 } else if self.susp_s || self.susp_r {
                     self.peer_fault = true; // the peer gave up while the other side was suspended
@@ -1389,5 +1392,85 @@ impl Monitor for C13 {
     }
     fn outcome(&self) -> String {
         format!("r_ok={}", self.r_success)
+    }
+}
+
+// ------------------------------------------------------------------------------------------
+/// C09 at protocol level: the receiver's account of the bytes it holds (segment list, progress,
+/// completeness verdict) equals the set union of the file data PDUs handed to it — also when a
+/// peer sends data beyond the size it announces in its EOF.
+#[derive(Default)]
+pub struct C09 {
+    held: u128,
+    eof: Option<u64>,
+    meta: bool,
+    prev_life: Option<Life>,
+    /// the receiver has left its receiving phase (what it does with later data is not compared)
+    frozen: bool,
+}
+impl Monitor for C09 {
+    fn step(&mut self, rec: &StepRec, ctx: &mut Ctx) {
+        if let Some((Side::R, p)) = &rec.delivered {
+            if self.prev_life == Some(Life::Dead) {
+                // a fresh receive transaction took over (the old task had died of an error)
+                *self = C09::default();
+            }
+            if !self.frozen {
+                if let Some((o, d)) = data_of(p) {
+                    self.held |= bits(o, o + d.len() as u64);
+                }
+                match op_of(p) {
+                    Some(Operations::Metadata(_)) => self.meta = true,
+                    Some(Operations::EoF(e)) if e.condition == Condition::NoError && self.eof.is_none() => self.eof = Some(e.file_size),
+                    _ => {}
+                }
+            }
+        }
+        let receiving = rec.obs.r_life.live() && rec.obs.r_sub == "ReceiveData";
+        if receiving && !self.frozen {
+            ctx.arm("account-compared");
+            let want = runs(self.held, 127);
+            if rec.obs.r_segments != want {
+                ctx.flag("segment-list-differs", "", format!("the receiver's segment list is {:?} but the union of the file data handed to it is {:?}", rec.obs.r_segments, want));
+            }
+            let n = self.held.count_ones() as u64;
+            if rec.obs.r_progress != n {
+                ctx.flag("progress-differs", if rec.obs.r_progress > n { "over" } else { "under" }, format!("the receiver counts {} bytes received but holds {} distinct bytes", rec.obs.r_progress, n));
+            }
+            // complete (metadata, EOF and every byte of [0,n) held) and still waiting
+            if ctx.scn.ack && ctx.scn.handlers.is_empty() {
+                if let Some(sz) = self.eof {
+                    if self.meta && bits(0, sz) & !self.held == 0 && sz < 127 {
+                        ctx.flag("complete-not-recognised", "", format!("metadata, EOF(size {}) and every byte of [0,{}) are held but the receiver is still in its receiving phase", sz, sz));
+                    }
+                }
+            }
+        }
+        if rec.obs.r_life != Life::NotCreated && !receiving {
+            // judged once, in the step that ends the receiving phase
+            if !self.frozen {
+                for (side, i) in &rec.inds {
+                    if *side != Side::R {
+                        continue;
+                    }
+                    if let Some((c, d, _)) = fin_of(i) {
+                        if c == Condition::NoError && d == DeliveryCode::Complete {
+                            ctx.arm("complete-verdict");
+                            let missing = self.eof.map(|sz| bits(0, sz) & !self.held);
+                            match missing {
+                                Some(0) => {}
+                                Some(m) => ctx.flag("complete-with-hole", "", format!("the receiver reported a complete delivery of {} bytes although it holds only {:?}: {:?} is missing", self.eof.unwrap(), runs(self.held, 127), runs(m, 127))),
+                                None => ctx.flag("complete-without-eof", "", "the receiver reported a complete delivery without having received an EOF(NoError)".to_string()),
+                            }
+                        }
+                    }
+                }
+            }
+            self.frozen = true;
+        }
+        self.prev_life = Some(rec.obs.r_life);
+    }
+    fn key(&self) -> String {
+        format!("{:x}/{:?}/{}/{:?}/{}", self.held, self.eof, self.meta, self.prev_life, self.frozen)
     }
 }
